@@ -312,14 +312,20 @@ def rule_radix(E, R):
     if not hq:
         return R.cannot(rule, fn, "anchor not found")
     import C17
+    import sem
+    Sq = sem.Sem(E, hq)
+    Sq.sites()
+    # the escape match may live in a private helper of the same file (analysed inlined)
+    bodies = [hq] + [E.hir(p_) for p_, _ in Sq.inlined if E.hir(p_) is not None]
+    char_matches = [(hb_, m_) for hb_ in bodies for m_ in find_matches(hb_["body"], r"^char$")]
     esc = None
-    for m in find_matches(hq["body"], r"^char$"):
+    for hb_, m in char_matches:
         arms = {}
         for a in m["arms"]:
             cs = C17.chars_of_pat(a["pat"])
             called = sorted({last_seg(norm(c.get("callee", ""))) for c in exprs(a["body"], "Call")
                              if norm(c.get("callee", "")).startswith("rhs_types::bytes::")})
-            rets = bool(explicit_err_returns(a["body"]))
+            rets = bool(explicit_err_returns(a["body"])) or norm(tail(a["body"]).get("callee", "")) == "core::result::Result::Err"
             key = "".join(sorted(cs)) if cs is not None else "_"
             arms[key] = (tuple(called), rets)
         if "x" in arms:
@@ -329,7 +335,7 @@ def rule_radix(E, R):
     # octal escape re-reads from the first digit (3 digits including the one already consumed)
     if esc is not None:
         ok = False
-        for m in find_matches(hq["body"], r"^char$"):
+        for hb_, m in char_matches:
             for a in m["arms"]:
                 if C17.chars_of_pat(a["pat"]) == set("01234567"):
                     for c in calls(a["body"], r"oct_byte$"):
@@ -337,7 +343,8 @@ def rule_radix(E, R):
                         # `let rest = iter.as_str();` placed before the `iter.next()` that produced the matched char
                         an = local_name(c["args"][0])
                         cn = local_name(m["scrut"])
-                        for blk in exprs(hq["body"], "Block"):
+                        # (a) `let rest = iter.as_str();` placed before the `iter.next()` that produced the matched char
+                        for blk in exprs(hb_["body"], "Block"):
                             st_ = blk.get("stmts", [])
                             ia = [i for i, x in enumerate(st_) if x.get("k") == "SLet" and x["pat"].get("name") == an and "init" in x and
                                   sem_peel(x["init"]).get("m") == "as_str"]
@@ -345,6 +352,17 @@ def rule_radix(E, R):
                                   any(y["m"] == "next" for y in exprs(x["init"], "MethodCall"))]
                             if an and cn and ia and ic and ia[0] < ic[0]:
                                 ok = True
+                        # (b) the matched char is the first one of `<arg>.chars()`: the argument still starts at that char
+                        c_init = let_init(hb_["body"], cn) if cn else None
+                        if an and c_init is not None:
+                            nx = [y for y in exprs(c_init, "MethodCall") if y["m"] == "next"]
+                            it_init = let_init(hb_["body"], local_name(nx[0]["recv"])) if nx and local_name(nx[0]["recv"]) else None
+                            if it_init is not None:
+                                ii = sem_peel(it_init)
+                                nexts = [y for y in exprs(hb_["body"], "MethodCall") if y["m"] in ("next", "nth", "skip", "next_back") and
+                                         local_name(y["recv"]) == local_name(nx[0]["recv"])]
+                                if ii.get("k") == "MethodCall" and ii["m"] == "chars" and local_name(ii["recv"]) == an and len(nexts) == 1:
+                                    ok = True
         R.check(ok, rule, fn, "octal escape parses 3 digits starting at the first digit", where=hq["span"])
     # separators
     fs = "<rhs_types::bytes::ByteSeparator as lex::Lex>::lex"
